@@ -191,7 +191,11 @@ func runC41(c *core.Ctx) {
 
 	for i := 0; i < nValues; i++ {
 		t := newTape(c.Rng)
-		v := build(t)
+		v, finite := tryBuild(build, t)
+		if !finite {
+			c.Inc("no_finite_value_skipped")
+			continue
+		}
 		c.Eval(1)
 		c.Inc("values")
 		countKinds(c, v)
